@@ -445,3 +445,86 @@ func unitStrideOver(idx ssa.Value, param ssa.Value) (bool, string) {
 	}
 	return true, ""
 }
+
+// constSetOf returns the set of integer constants v may hold, following phis and — for parameters of module functions
+// whose address is never taken — the corresponding argument at every static call site in the module (depth-limited).
+// known=false means some source is not a constant (the set is then only a lower bound).
+func constSetOf(p *Program, v ssa.Value) (set map[int64]bool, known bool) {
+	set = map[int64]bool{}
+	known = true
+	seen := map[ssa.Value]bool{}
+	var w func(v ssa.Value, d int)
+	w = func(v ssa.Value, d int) {
+		if seen[v] {
+			return
+		}
+		seen[v] = true
+		if d > 6 {
+			known = false
+			return
+		}
+		switch x := v.(type) {
+		case *ssa.Const:
+			if k, ok := constInt(x); ok {
+				set[k] = true
+			} else {
+				known = false
+			}
+		case *ssa.Phi:
+			for _, e := range x.Edges {
+				w(e, d+1)
+			}
+		case *ssa.ChangeType:
+			w(x.X, d)
+		case *ssa.Convert:
+			w(x.X, d)
+		case *ssa.Parameter:
+			fn := x.Parent()
+			idx := -1
+			for i, q := range fn.Params {
+				if q == x {
+					idx = i
+				}
+			}
+			if idx < 0 || !p.InModule(fn) || fn.Parent() != nil {
+				known = false
+				return
+			}
+			sites := 0
+			for _, g := range p.Funcs {
+				eachInstr(g, func(in ssa.Instruction) {
+					// address taken?
+					if ci, ok := in.(ssa.CallInstruction); ok {
+						cc := ci.Common()
+						if cc.StaticCallee() == fn {
+							sites++
+							args := cc.Args
+							if idx < len(args) {
+								w(args[idx], d+1)
+							} else {
+								known = false
+							}
+							return
+						}
+					}
+					var ops []*ssa.Value
+					for _, op := range in.Operands(ops) {
+						if op != nil && *op == ssa.Value(fn) {
+							if ci, ok := in.(ssa.CallInstruction); ok && ci.Common().Value == ssa.Value(fn) {
+								continue
+							}
+							known = false
+						}
+					}
+				})
+			}
+			if sites == 0 {
+				known = false
+			}
+		default:
+			known = false
+		}
+	}
+	w(v, 0)
+	return set, known
+}
